@@ -296,5 +296,72 @@ def enter_failure(inp):
     return {'violates': bool(leaks), 'detail': leaks}
 
 
+def stale_write(inp):
+    """a timer callback that is ALREADY RUNNING (it has started to write its status line to a slow stream) when the caller leaves:
+    after exit() / the with statement has returned nothing may be written any more.  Both kinds of callback: the one armed by
+    enter() and the one re-armed by update().  Scripted Timer (the callback is run on a real second thread); the stream blocks
+    writes of non-main threads until released or 0.6 s have passed."""
+    import threading
+    import oqupy.util as U
+
+    class ScriptedTimer:
+        instances = []
+
+        def __init__(self, interval, fn):
+            self.fn, self.armed = fn, False
+            ScriptedTimer.instances.append(self)
+
+        def start(self):
+            self.armed = True
+
+        def cancel(self):
+            self.armed = False
+
+    class SlowStream(io.StringIO):
+        def __init__(self):
+            super().__init__()
+            self.in_write, self.log = threading.Event(), []
+
+        def write(self, text):
+            if threading.current_thread() is not threading.main_thread():
+                self.in_write.set()
+                time.sleep(0.6)
+            self.log.append((time.monotonic(), threading.current_thread() is threading.main_thread(), text))
+            return super().write(text)
+    bad = []
+    orig = U.Timer
+    U.Timer = ScriptedTimer
+    try:
+        for which in ('timer armed by enter()', 'timer re-armed by update()'):
+            for leave in ('exit', 'context'):
+                ScriptedTimer.instances = []
+                stream = SlowStream()
+                pb = U.ProgressBar(10)
+                pb._file = stream
+                pb.enter()
+                if which.endswith('update()'):
+                    pb.update(1)
+                fired = pb._timer                       # this timer fires now: its callback runs on a second thread
+                fired.armed = False
+                cb = threading.Thread(target=fired.fn)
+                cb.start()
+                if not stream.in_write.wait(2.0):
+                    cb.join(2.0)
+                    continue                            # the callback wrote nothing at all (closed?): nothing to check
+                if leave == 'exit':
+                    pb.exit()
+                else:
+                    pb.__exit__(None, None, None)
+                left_at = time.monotonic()
+                cb.join(5.0)
+                late = [t for (t, is_main, text) in stream.log if not is_main and t > left_at]
+                if late or cb.is_alive():
+                    bad.append({'callback': which, 'caller leaves by': leave, 'writes by the timer thread after the caller had left': len(late),
+                                'seconds after': [round(t - left_at, 3) for t in late][:3]})
+    finally:
+        U.Timer = orig
+    return {'violates': bool(bad), 'detail': bad}
+
+
 # thorough tier (bounded native sweeps): (function, inputs, obligation of the open finding it reproduces or None)
-THOROUGH = [('timer_race', {}, None), ('enter_failure', {}, None)]
+THOROUGH = [('timer_race', {}, None), ('enter_failure', {}, None), ('stale_write', {}, None)]
